@@ -204,7 +204,7 @@ def ccanon(text):
             v = float(w)
         except ValueError:
             continue
-        items.append("(%s, %s)" % (core.ctext(w), core.ctext(repr(v))))
+        items.append("(%s, %s)" % (core.ctext(w), core.ctext(repr(v + 0.0))))   # -0.0 and 0.0 are one time
     return core.clist(items, "(text * text)")
 
 
